@@ -9,6 +9,7 @@ verus! {
 
 //#include ../_shared/linerange_type.inc.rs
 //#include ../_shared/linerange_specs.inc.rs
+//#use-contract linerange ../_shared/linerange_expand.inc.rs
 // the region names the type by its crate path
 pub mod authorship { pub mod authorship_log { pub use crate::LineRange; } }
 
@@ -489,6 +490,80 @@ fn opq_set_insert(s: &mut HashSet<String>, key: &String)
                 //@ }
             }
 //@     (committed_lines_map, uncommitted_lines_map, file_committed_hunks, referenced_prompts)
+//@ }
+//#end
+
+// ---------------------------------------------------------------- the unstaged lines of a file, as the split receives them
+/// stand-in for HashMap<String, Vec<LineRange>> (the per-file hunk lists); `uh_get` is its lookup
+#[verifier::external_body]
+pub struct HunkMap { _o: () }
+pub uninterp spec fn uh_get(m: HunkMap, k: Seq<char>) -> Option<Vec<LineRange>>;
+#[verifier::external_body]
+fn opq_hunks_get<'a>(m: &'a HunkMap, k: &String) -> (r: Option<&'a Vec<LineRange>>)
+    ensures r is Some <==> uh_get(*m, k@) is Some, r is Some ==> *r->Some_0 == uh_get(*m, k@)->Some_0,
+{ unimplemented!() }
+/// `v.extend(lines)` (appends, in order)
+#[verifier::external_body]
+fn opq_extend_lines(v: &mut Vec<u32>, lines: Vec<u32>)
+    ensures final(v)@ == old(v)@ + lines@,
+{ unimplemented!() }
+pub open spec fn sorted_nd(s: Seq<u32>) -> bool { forall|i: int, j: int| 0 <= i <= j < s.len() ==> s[i] <= s[j] }
+/// `v.sort_unstable()` (documented: a sorted permutation; the sorted permutation of a sorted sequence is that sequence)
+#[verifier::external_body]
+fn opq_sort_unstable(v: &mut Vec<u32>)
+    ensures sorted_nd(final(v)@), final(v)@.to_multiset() == old(v)@.to_multiset(), sorted_nd(old(v)@) ==> final(v)@ == old(v)@,
+{ unimplemented!() }
+/// every range denotes at least one line (what compress_lines produces; `expand` needs it)
+pub open spec fn ranges_nonempty(v: Seq<LineRange>) -> bool { forall|i: int| 0 <= i < v.len() ==> lr_nonempty(#[trigger] v[i]) }
+/// x is a line of one of the first n ranges
+pub open spec fn ranges_have_upto(v: Seq<LineRange>, n: int, x: int) -> bool { exists|i: int| 0 <= i < n && lr_has(#[trigger] v[i], x) }
+//#item file=src/authorship/virtual_attribution.rs kind=region name=split_unstaged_lines in=to_authorship_log_and_initial_working_log from="let mut unstaged_lines: Vec<u32> = Vec::new();" to="// Split line attributions into committed and uncommitted" from_nth=0 to_nth=0 impl="VirtualAttributions" to_exclusive=yes opaque='[{"expr": "unstaged_hunks.get(file_path)", "call": "opq_hunks_get(&unstaged_hunks, file_path)"}, {"expr": "unstaged_lines.extend(range.expand())", "call": "opq_extend_lines(&mut unstaged_lines, range.expand())"}, {"expr": "unstaged_lines.sort_unstable()", "call": "opq_sort_unstable(&mut unstaged_lines)"}]'
+//@ fn region_split_unstaged_lines(unstaged_hunks: HunkMap, file_path: &String) -> (unstaged_lines: Vec<u32>)
+//@     requires
+//@         // the per-file hunk lists are what compress_lines returns (proved there): canonical, every range non-empty
+//@         uh_get(unstaged_hunks, file_path@) is Some ==> ranges_canonical(uh_get(unstaged_hunks, file_path@)->Some_0@) && ranges_nonempty(uh_get(unstaged_hunks, file_path@)->Some_0@),
+//@     ensures
+//@         // the list handed to the split is STRICTLY INCREASING (the split's precondition) and holds exactly the lines of the
+//@         // file's unstaged hunks - nothing for a file without unstaged hunks
+//@         strictly_inc(unstaged_lines@),
+//@         forall|x: int| seq_has(unstaged_lines@, x) <==> (uh_get(unstaged_hunks, file_path@) is Some && ranges_have(uh_get(unstaged_hunks, file_path@)->Some_0@, x)),
+//@ {
+            let mut unstaged_lines: Vec<u32> = Vec::new();
+            if let Some(unstaged_ranges) = opq_hunks_get(&unstaged_hunks, file_path) {
+                //@ let ghost rs = unstaged_ranges@;
+                for range in it_0: unstaged_ranges
+                //@     invariant
+                //@         rs == unstaged_ranges@, ranges_canonical(rs), ranges_nonempty(rs), it_0.snapshot@.remaining().len() == rs.len(),
+                //@         forall|i: int| 0 <= i < rs.len() ==> *(#[trigger] it_0.snapshot@.remaining()[i]) == rs[i],
+                //@         strictly_inc(unstaged_lines@),
+                //@         forall|x: int| seq_has(unstaged_lines@, x) <==> ranges_have_upto(rs, it_0.index@, x),
+                //@         it_0.index@ > 0 ==> forall|t: int| 0 <= t < unstaged_lines@.len() ==> (#[trigger] unstaged_lines@[t]) <= lr_hi(rs[it_0.index@ - 1]),
+                //@         it_0.index@ == 0 ==> unstaged_lines@.len() == 0,
+                {
+                    //@ let ghost k = it_0.index@;
+                    //@ let ghost u0 = unstaged_lines@;
+                    //@ proof { assert(*range == rs[k]); assert(lr_nonempty(rs[k])); if k > 0 { assert(lr_hi(rs[k - 1]) + 1 < lr_lo(rs[k])); } }
+                    opq_extend_lines(&mut unstaged_lines, range.expand());
+                    //@ proof {
+                    //@     let u1 = unstaged_lines@;
+                    //@     let n0 = u0.len() as int;
+                    //@     assert forall|t: int| n0 <= t < u1.len() implies (#[trigger] u1[t]) == lr_lo(rs[k]) + (t - n0) by { }
+                    //@     assert forall|i: int, j: int| 0 <= i < j < u1.len() implies u1[i] < u1[j] by {
+                    //@         if j < n0 { assert(u1[i] == u0[i] && u1[j] == u0[j]); }
+                    //@         else if i < n0 { assert(u1[i] == u0[i]); assert(u0[i] <= lr_hi(rs[k - 1])); }
+                    //@     }
+                    //@     assert forall|x: int| seq_has(u1, x) <==> ranges_have_upto(rs, k + 1, x) by {
+                    //@         if seq_has(u1, x) { let t = choose|t: int| 0 <= t < u1.len() && #[trigger] u1[t] as int == x; if t < n0 { assert(u0[t] as int == x); assert(seq_has(u0, x)); let i = choose|i: int| 0 <= i < k && lr_has(#[trigger] rs[i], x); assert(0 <= i < k + 1 && lr_has(rs[i], x)); } else { assert(lr_has(rs[k], x)); assert(0 <= k < k + 1 && lr_has(rs[k], x)); } }
+                    //@         if ranges_have_upto(rs, k + 1, x) { let i = choose|i: int| 0 <= i < k + 1 && lr_has(#[trigger] rs[i], x); if i < k { assert(ranges_have_upto(rs, k, x)); assert(seq_has(u0, x)); let t = choose|t: int| 0 <= t < u0.len() && #[trigger] u0[t] as int == x; assert(u1[t] == u0[t]); assert(0 <= t < u1.len() && u1[t] as int == x); } else { let t = n0 + (x - lr_lo(rs[k])); assert(0 <= t < u1.len() && u1[t] as int == x); } }
+                    //@     }
+                    //@     assert forall|t: int| 0 <= t < u1.len() implies (#[trigger] u1[t]) <= lr_hi(rs[k]) by { if t < n0 { assert(u1[t] == u0[t]); if k > 0 { assert(u0[t] <= lr_hi(rs[k - 1])); } } }
+                    //@ }
+                }
+                //@ proof { assert forall|i: int, j: int| 0 <= i <= j < unstaged_lines@.len() implies unstaged_lines@[i] <= unstaged_lines@[j] by { if i < j { } } }
+                opq_sort_unstable(&mut unstaged_lines);
+                //@ proof { assert forall|x: int| ranges_have_upto(rs, rs.len() as int, x) <==> ranges_have(rs, x) by { } }
+            }
+//@     unstaged_lines
 //@ }
 //#end
 
